@@ -27,9 +27,25 @@ theorem pres_attrInsertM (row o es i v) : Pres (attrInsertM row o es i v) := by 
 macro_rules | `(tactic| pres_lemma) => `(tactic| with_reducible apply pres_attrInsertM)
 theorem pres_attrDelete (row o es x) : Pres (attrDelete row o es x) := by unfold attrDelete; pres_auto
 macro_rules | `(tactic| pres_lemma) => `(tactic| with_reducible apply pres_attrDelete)
+theorem pres_isInstanceOf (t n c) : Pres (isInstanceOf t n c) := by unfold isInstanceOf; pres_auto
+macro_rules | `(tactic| pres_lemma) => `(tactic| with_reducible apply pres_isInstanceOf)
+theorem pres_typecastTarget (t row) : Pres (typecastTarget t row) := by unfold typecastTarget; pres_auto
+macro_rules | `(tactic| pres_lemma) => `(tactic| with_reducible apply pres_typecastTarget)
+theorem pres_typecastOnOwner (t row o) : Pres (typecastOnOwner t row o) := by unfold typecastOnOwner; pres_auto
+macro_rules | `(tactic| pres_lemma) => `(tactic| with_reducible apply pres_typecastOnOwner)
+theorem pres_coupledRow (t row o) : Pres (coupledRow t row o) := by unfold coupledRow; pres_auto
+macro_rules | `(tactic| pres_lemma) => `(tactic| with_reducible apply pres_coupledRow)
+theorem pres_findRelations (o) : Pres (findRelations o) := by unfold findRelations; pres_auto
+macro_rules | `(tactic| pres_lemma) => `(tactic| with_reducible apply pres_findRelations)
+theorem pres_accDeleteBase (t row o es x) : Pres (accDeleteBase t row o es x) := by unfold accDeleteBase; pres_auto
+macro_rules | `(tactic| pres_lemma) => `(tactic| with_reducible apply pres_accDeleteBase)
 theorem pres_accDelete (t row o es x) : Pres (accDelete t row o es x) := by unfold accDelete; pres_auto
 macro_rules | `(tactic| pres_lemma) => `(tactic| with_reducible apply pres_accDelete)
-theorem pres_accInsert (row o es i v) : Pres (accInsert row o es i v) := by unfold accInsert; pres_auto
+theorem pres_reqRelInsert (t o i v) : Pres (reqRelInsert t o i v) := by unfold reqRelInsert; pres_auto
+macro_rules | `(tactic| pres_lemma) => `(tactic| with_reducible apply pres_reqRelInsert)
+theorem pres_accInsertBase (t row o es i v) : Pres (accInsertBase t row o es i v) := by unfold accInsertBase; pres_auto
+macro_rules | `(tactic| pres_lemma) => `(tactic| with_reducible apply pres_accInsertBase)
+theorem pres_accInsert (t row o es i v) : Pres (accInsert t row o es i v) := by unfold accInsert; pres_auto
 macro_rules | `(tactic| pres_lemma) => `(tactic| with_reducible apply pres_accInsert)
 theorem pres_directSet_go (owner i) (vs) : Pres (directSet.go row owner i vs) := by
   induction vs generalizing i with
@@ -38,11 +54,15 @@ theorem pres_directSet_go (owner i) (vs) : Pres (directSet.go row owner i vs) :=
 macro_rules | `(tactic| pres_lemma) => `(tactic| with_reducible apply pres_directSet_go)
 theorem pres_directSet (t row o vs) : Pres (directSet t row o vs) := by unfold directSet; pres_auto
 macro_rules | `(tactic| pres_lemma) => `(tactic| with_reducible apply pres_directSet)
+theorem pres_accSetBase (t row o vs) : Pres (accSetBase t row o vs) := by unfold accSetBase; pres_auto
+macro_rules | `(tactic| pres_lemma) => `(tactic| with_reducible apply pres_accSetBase)
 theorem pres_accSet (t row o vs) : Pres (accSet t row o vs) := by unfold accSet; pres_auto
 macro_rules | `(tactic| pres_lemma) => `(tactic| with_reducible apply pres_accSet)
+theorem pres_accDelBase (t row o) : Pres (accDelBase t row o) := by unfold accDelBase; pres_auto
+macro_rules | `(tactic| pres_lemma) => `(tactic| with_reducible apply pres_accDelBase)
 theorem pres_accDel (t row o) : Pres (accDel t row o) := by unfold accDel; pres_auto
 macro_rules | `(tactic| pres_lemma) => `(tactic| with_reducible apply pres_accDel)
-theorem pres_listInsert (row o es i v) : Pres (listInsert row o es i v) := by unfold listInsert; pres_auto
+theorem pres_listInsert (t row o es i v) : Pres (listInsert t row o es i v) := by unfold listInsert; pres_auto
 macro_rules | `(tactic| pres_lemma) => `(tactic| with_reducible apply pres_listInsert)
 theorem pres_listDelItem (t row o es i) : Pres (listDelItem t row o es i) := by unfold listDelItem; pres_auto
 macro_rules | `(tactic| pres_lemma) => `(tactic| with_reducible apply pres_listDelItem)
@@ -50,6 +70,10 @@ theorem pres_listSetItem (t row o es i v) : Pres (listSetItem t row o es i v) :=
 macro_rules | `(tactic| pres_lemma) => `(tactic| with_reducible apply pres_listSetItem)
 theorem pres_listSetSlice (t row o es lo hi vs) : Pres (listSetSlice t row o es lo hi vs) := by unfold listSetSlice; pres_auto
 macro_rules | `(tactic| pres_lemma) => `(tactic| with_reducible apply pres_listSetSlice)
+theorem pres_accCreateObjBase (t row o h kw) : Pres (accCreateObjBase t row o h kw) := by unfold accCreateObjBase; pres_auto
+macro_rules | `(tactic| pres_lemma) => `(tactic| with_reducible apply pres_accCreateObjBase)
+theorem pres_accCreateObj (t row o h kw) : Pres (accCreateObj t row o h kw) := by unfold accCreateObj; pres_auto
+macro_rules | `(tactic| pres_lemma) => `(tactic| with_reducible apply pres_accCreateObj)
 theorem pres_listCreate (t row o es h kw) : Pres (listCreate t row o es h kw) := by unfold listCreate; pres_auto
 macro_rules | `(tactic| pres_lemma) => `(tactic| with_reducible apply pres_listCreate)
 
